@@ -310,9 +310,80 @@ def h_needle_selftest(ctx):
     return Outcome("selftest-ok" if not vs else "selftest-bad", vs, nontrivial=(label, plant))
 
 
+PRIV_NAMES = ["d", "p", "q", "dp", "dq", "qi", "oth", "k"]
+
+
+def jwk_private_members(o, path=""):
+    """(path, member) for every private member name inside JWK-shaped dicts of an output."""
+    if isinstance(o, dict):
+        if "kty" in o and o.get("kty") != "oct":
+            for m in PRIV_NAMES:
+                if m in o:
+                    yield path, m
+        for k, v in o.items():
+            yield from jwk_private_members(v, path + "/" + str(k))
+    elif isinstance(o, list):
+        for i, v in enumerate(o):
+            yield from jwk_private_members(v, f"{path}[{i}]")
+
+
+def h_public_only(ctx):
+    """Keys that are public-only by construction (generated as public, or a public twin built after the private key was
+    exported) never show private members in ANY export, including the default one."""
+    from joserfc.jwk import JWKRegistry, RSAKey, ECKey, OKPKey, KeySet
+    kt, arg = ctx.choose("kind", [("RSA", 1024), ("EC", "P-256"), ("EC", "P-384"), ("EC", "P-521"), ("EC", "secp256k1"),
+                                  ("OKP", "Ed25519"), ("OKP", "Ed448"), ("OKP", "X25519"), ("OKP", "X448")])
+    mode = ctx.choose("how", ["generate(private=False)", "generate(private=False, auto_kid=True)", "JWKRegistry.generate(private=False, auto_kid=True)",
+                              "generate_key_set(private=False)", "generate(private=False, parameters)", "public twin after the private key was exported"])
+    cls = {"RSA": RSAKey, "EC": ECKey, "OKP": OKPKey}[kt]
+    vs = []
+    if mode.startswith("public twin"):
+        origin = ctx.choose("origin", ["pem", "der", "native", "dict"])
+        kind = {1024: "rsa1024"}.get(arg, arg)
+        jwk = scen.key(kind)
+        priv = A.jkey(jwk, origin)
+        call(priv.as_dict)
+        call(lambda: priv.as_dict(private=True))
+        call(priv.thumbprint)
+        keys = [A.jkey(jwk, origin, private=False)]
+        ndl = needles(jwk)
+    else:
+        ndl = []
+        if mode == "generate(private=False)":
+            keys = [cls.generate_key(arg, private=False)]
+        elif mode == "generate(private=False, auto_kid=True)":
+            keys = [cls.generate_key(arg, private=False, auto_kid=True)]
+        elif mode.startswith("JWKRegistry"):
+            keys = [JWKRegistry.generate_key(kt, arg, private=False, auto_kid=True)]
+        elif mode.startswith("generate_key_set"):
+            keys = KeySet.generate_key_set(kt, arg, private=False, count=2).keys
+        else:
+            keys = [cls.generate_key(arg, {"use": "sig", "kid": "pub-1"}, private=False, auto_kid=True)]
+    for key in keys:
+        if key.is_private:
+            vs.append(viol(f"a key requested as public-only is private ({kt})", f"{mode} {arg}"))
+            continue
+        outputs = {"as_dict()": lambda: key.as_dict(), "dict(key)": lambda: dict(key), "as_dict(private=False)": lambda: key.as_dict(private=False),
+                   "KeySet.as_dict()": lambda: KeySet([key]).as_dict(), "KeySet.as_dict(private=False)": lambda: KeySet([key]).as_dict(private=False),
+                   "as_pem()": lambda: key.as_pem(), "as_der()": lambda: key.as_der(), "thumbprint/kid": lambda: (key.thumbprint(), key.ensure_kid(), key.kid)}
+        for name, f in outputs.items():
+            r = call(f)
+            if not r.ok:
+                continue
+            for path, m in jwk_private_members(r.value if isinstance(r.value, (dict, list)) else {}):
+                vs.append(viol(f"{name} of a public-only key carries the private member {m!r} ({kt})", f"{mode} {arg}: at {path or '/'}"))
+            for m in leaks(r.value if not isinstance(r.value, tuple) else list(r.value), ndl):
+                vs.append(viol(f"{name} of a public-only key contains the octets of private parameter {m!r} ({kt})", f"{mode} {arg}"))
+            if isinstance(r.value, bytes) and b"PRIVATE" in r.value:
+                vs.append(viol(f"{name} of a public-only key is a private key file ({kt})", f"{mode} {arg}"))
+    return Outcome(f"public-only:{'clean' if not vs else 'LEAK'}", vs, nontrivial=(kt, arg, mode, tuple(ctx.choices)))
+
+
 _st = Part("needle-selftest", h_needle_selftest, split_depth=1)
+_pu = Part("public-only-keys", h_public_only, split_depth=2)
+_pu.single_bucket_ok = True
 _st.single_bucket_ok = True
 PARTS = [
     Part("outputs", h_outputs, split_depth=2, budget={"quick": 120, "thorough": 1200}),
-    _st,
+    _st, _pu,
 ]
